@@ -46,10 +46,12 @@ import io
 import json
 import logging
 import os
+import queue
 import shutil
 import sys
 import tempfile
 import threading as _real_threading
+import _thread
 import time as _real_time
 from pathlib import Path
 from typing import Any, Dict, List, Optional, Sequence, Tuple
@@ -120,11 +122,28 @@ class Abort(BaseException):
     """raised inside a gated thread to unwind it when a case is torn down"""
 
 
+def fast_tmp() -> None:
+    """Every case creates and removes a directory tree and (QL) a NamedTemporaryFile; on the disk behind /tmp that
+    costs ~10 ms per case, more than the case itself.  Where a memory file system is mounted the process-wide default
+    of `tempfile` (what TMPDIR would set; the code under test uses the same default) is pointed at it."""
+    if os.environ.get("TMPDIR") or tempfile.tempdir:
+        return
+    shm = "/dev/shm"
+    try:
+        if os.path.isdir(shm) and os.access(shm, os.W_OK | os.X_OK):
+            with tempfile.TemporaryDirectory(prefix="pyrtma_verif_probe_", dir=shm):
+                pass
+            tempfile.tempdir = shm
+    except OSError:
+        pass
+
+
 def env() -> Dict[str, Any]:
     """Import the code under test once per process, write the message definitions module."""
     if _ENV:
         return _ENV
     C.use_repo()
+    fast_tmp()
     import pyrtma
     import pyrtma.data_logger  # noqa: F401  (registers the formatters)
     from pyrtma.data_logger import data_collection as dcm
@@ -195,15 +214,58 @@ def key_of(msg) -> Tuple[bytes, bytes]:
 # ------------------------------------------------------------------------------------------------
 
 class Controller:
+    """Hands the processor to exactly one gated thread at a time.
+
+    Two modes.  *park* (set-up and tear-down): a thread arriving at a gate reports to the main thread and waits to be
+    released.  *auto* (`run`): the arriving thread itself reads the next letter of the schedule; if it is its own it
+    simply goes on, otherwise it releases the other thread and parks.  So a run of k equal letters costs no thread
+    switch at all and an alternation one switch per step (the former design had a third, controlling thread and
+    two switches per step); the trace and the meaning of a schedule are the same: a step of a thread = the gate it is
+    parked at plus all code up to its next gate, and a letter naming a finished thread is skipped."""
+
     def __init__(self):
-        self.arrive = _real_threading.Semaphore(0)
-        self.go = {"R": _real_threading.Semaphore(0), "W": _real_threading.Semaphore(0)}
+        self.arrive: "queue.SimpleQueue[None]" = queue.SimpleQueue()
+        self.go = {"R": _thread.allocate_lock(), "W": _thread.allocate_lock()}
+        for l in self.go.values():
+            l.acquire()                      # binary semaphores, initially 0
+        self.done = _thread.allocate_lock()
+        self.done.acquire()
         self.at: Dict[str, Any] = {}
         self.tid_of: Dict[int, str] = {}
         self.free = False
         self.abort = False
+        self.auto = False
+        self.started = False             # did the code under test start a writer thread?
+        self.progress = 0
         self.exc: Dict[str, BaseException] = {}
         self.names: Dict[int, str] = {}
+        self._sched: Any = iter(())
+        self._stop: Any = None
+        self._trace: List[str] = []
+
+    def _pick(self) -> Optional[str]:
+        """next thread to run according to the schedule (None: schedule exhausted or the stop condition holds)"""
+        for t in self._sched:
+            if self._stop():
+                return None
+            if self.at.get(t, "finished") == "finished":      # ended, or (W) never started by the code under test
+                continue
+            self._trace.append(f"{t}:{self.label(t)}")
+            self.progress += 1
+            return t
+        return None
+
+    def _hand_over(self, me: Optional[str]) -> bool:
+        """called by the only running thread; True = `me` itself continues"""
+        n = self._pick()
+        if n is not None and n == me:
+            return True
+        if n is None:
+            self.auto = False
+            self.done.release()
+        else:
+            self.go[n].release()
+        return False
 
     def gate(self, what: Any):
         t = self.tid_of.get(_real_threading.get_ident())
@@ -214,18 +276,27 @@ class Controller:
         if self.free:
             return
         self.at[t] = what
-        self.arrive.release()
+        if self.auto:
+            if self._hand_over(t):
+                return
+        else:
+            self.arrive.put(None)
         self.go[t].acquire()
         if self.abort:
             raise Abort()
 
     def finish(self, t: str):
         self.at[t] = "finished"
-        self.arrive.release()
+        if self.auto:
+            self._hand_over(None)
+        else:
+            self.arrive.put(None)
 
     def wait_arrival(self):
-        if not self.arrive.acquire(timeout=30):
-            raise C.MachineryError("gated thread did not reach its next gate within 30 s")
+        try:
+            self.arrive.get(timeout=30)
+        except queue.Empty:
+            raise C.MachineryError("gated thread did not reach its next gate within 30 s") from None
 
     def label(self, t: str) -> str:
         w = self.at[t]
@@ -235,13 +306,19 @@ class Controller:
             return f"{w[0]}{w[1]}"
         return str(w)
 
-    def step(self, t: str) -> Optional[str]:
-        if self.at.get(t) == "finished":
-            return None
-        lab = self.label(t)
-        self.go[t].release()
-        self.wait_arrival()
-        return lab
+    def run(self, sched, stop, trace: List[str]):
+        """all gated threads are parked; execute `sched` (an iterable over "R"/"W") until it is exhausted or `stop()`
+        holds before a step; on return every unfinished thread is parked at a gate again"""
+        self._sched, self._stop, self._trace = iter(sched), stop, trace
+        self.auto = True
+        if self._hand_over(None):
+            raise C.MachineryError("controller: impossible hand-over")
+        last = -1
+        while not self.done.acquire(timeout=30):
+            if self.progress == last:
+                self.auto = False
+                raise C.MachineryError("gated thread did not reach its next gate within 30 s")
+            last = self.progress
 
 
 class ShimThreading:
@@ -288,12 +365,15 @@ class ShimThreading:
                     ctl_.finish("W")
 
             def start(self):
+                ctl_.started = True
                 self._t.start()
 
             def is_alive(self):
-                return ctl_.at.get("W") != "finished"
+                return self._t.ident is not None and ctl_.at.get("W") != "finished"
 
             def join(self, timeout=None):
+                if self._t.ident is None:
+                    raise RuntimeError("cannot join thread before it is started")
                 self._t.join(timeout)
 
         self.Event = Event
@@ -329,15 +409,28 @@ class WarnCounter(logging.Handler):
 # ------------------------------------------------------------------------------------------------
 
 def ql_read(path: str) -> List[Tuple[Optional[bytes], Optional[bytes]]]:
+    """`QLReader.load` as a user calls it (default arguments; one reader object per process, used for file after file).
+    Every message type the harness records is defined in the definitions module, so a message the reader *skips* as
+    unknown is a message it failed to give back: it counts as undecodable, as does a disagreement between the three
+    views the reader offers (`headers` / `data` / `messages`)."""
     E = env()
-    rd = E["QLReader"]()
+    rd = E.get("ql_reader")
+    if rd is None:
+        rd = E["ql_reader"] = E["QLReader"]()
     n0 = len(sys.path)
     try:
-        rd.load(path, E["defs"], skip_unknown=False)
+        rd.load(path, E["defs"])
+    except BaseException:
+        E.pop("ql_reader", None)        # a load that raised may leave the object half filled: start afresh
+        raise
     finally:
         while len(sys.path) > n0:   # QLReader.load prepends the definitions' directory on every call
             sys.path.pop(0)
-    return [(bytes(h), bytes(d)) for h, d in zip(rd.headers, rd.data)]
+    out: List[Tuple[Optional[bytes], Optional[bytes]]] = [(bytes(h), bytes(d)) for h, d in zip(rd.headers, rd.data)]
+    if [(bytes(m.header), bytes(m.data)) for m in rd.messages] != out or len(rd.headers) != len(rd.data):
+        out.append((None, b"headers/data/messages disagree"))
+    out += [(None, b"skipped as unknown")] * int(rd.skipped or 0)
+    return out
 
 
 def raw_read(blob: bytes) -> List[Tuple[Optional[bytes], Optional[bytes]]]:
@@ -422,6 +515,37 @@ def tail_len(case: Dict[str, Any]) -> int:
     return 2 * (len(case["ops"]) + 2) * (len(case["ds"]) + 6) + 40
 
 
+def pre_ops(case: Dict[str, Any], dc, shim_time) -> None:
+    """case["pre"]: operations handed to the collection *before* `start()` (the data logger passes every message it
+    reads to `collection.update`, whether a recording is running or not): same shapes as the operations of the
+    session.  None of them may leave a trace in the files of the session that follows."""
+    for op in case.get("pre") or []:
+        shim_time.now += float(op[1])
+        k = op[0]
+        if k == "u":
+            dc.update(mk_msg(op[2], op[3]))
+        elif k == "t":
+            dc.update(None)
+        elif k == "p":
+            dc.pause()
+        elif k == "r":
+            dc.resume()
+
+
+def all_updates(case: Dict[str, Any]):
+    return [op for op in (case.get("pre") or []) + case["ops"] if op[0] == "u"]
+
+
+def ops_toks(ops) -> str:
+    return " ".join(f"u:{op[1]}:{op[2]}:{op[3]}" if op[0] == "u" else f"{op[0]}:{op[1]}" for op in ops)
+
+
+def pre_lines(case: Dict[str, Any]) -> List[str]:
+    """the driver does not read this line: what happens before start() is not part of the session the model runs, and
+    the Spec's `accepted` is a function of the session's operations alone"""
+    return ["PRE " + ops_toks(case["pre"])] if case.get("pre") else []
+
+
 def run_sched_case(case: Dict[str, Any]) -> Dict[str, Any]:
     """case = {"ds": [{"fmt","types": "A"|[tidx..],"interval": int}], "ops": [[k, dt, (tidx)]...], "sched": "RW.."}
     ops kinds: u (update with a message), t (update(None)), p (pause), r (resume), s (stop; last)."""
@@ -440,29 +564,39 @@ def run_sched_case(case: Dict[str, Any]) -> Dict[str, Any]:
     obs: Dict[str, Any] = {"status": "stuck", "warn": 0, "wdead": 0, "trace": [], "files": [], "rexc": None,
                            "wexc": None}
     try:
-        md = E["LoggingMetadata"]()
-        dc = dcm.DataCollection("c", base, "run", md)
-        ctl.names[id(dc.write_to_disk)] = "td"
-        ctl.names[id(dc.write_finished)] = "fin"
-        ctl.wait_arrival()                       # the writer is parked at its first gate
+        # set-up; an exception of the code under test here is an observation (the session "raised"), never a crash
         dsets = []
-        for i, d in enumerate(case["ds"]):
-            types = [2147483647] if d["types"] == "A" else [TYPE_IDS[t] for t in d["types"]]
-            ds = E["DataSet"]("c", f"ds{i}", f"ds{i}", "f", E["get_formatter"](d["fmt"]), d["interval"], types, md)
-            _wrap(ctl, ds, i)
-            dc.add_data_set(ds)
-            dsets.append(ds)
-        dc.start()
+        try:
+            md = E["LoggingMetadata"]()
+            dc = dcm.DataCollection("c", base, "run", md)
+            ctl.names[id(dc.write_to_disk)] = "td"
+            ctl.names[id(dc.write_finished)] = "fin"
+            if ctl.started:
+                ctl.wait_arrival()                   # the writer is parked at its first gate (or has ended)
+            for i, d in enumerate(case["ds"]):
+                types = [2147483647] if d["types"] == "A" else [TYPE_IDS[t] for t in d["types"]]
+                ds = E["DataSet"]("c", f"ds{i}", f"ds{i}", "f", E["get_formatter"](d["fmt"]), d["interval"], types, md)
+                _wrap(ctl, ds, i)
+                dc.add_data_set(ds)
+                dsets.append(ds)
+            pre_ops(case, dc, shim_time)
+            dc.start()
+        except C.MachineryError:
+            raise
+        except Exception as e:  # noqa: BLE001
+            obs["status"] = "raise:" + type(e).__name__
+            obs["rexc"] = "during set-up (constructors / add_data_set / start): " + repr(e)
+            obs["wdead"] = 1 if ctl.at.get("W") == "finished" else 0
+            return obs
         # messages
         msgs: Dict[int, Any] = {}
         keys: Dict[Tuple[bytes, bytes], int] = {}
         hkeys: Dict[bytes, int] = {}
-        for op in case["ops"]:
-            if op[0] == "u":
-                m = mk_msg(op[2], op[3])
-                msgs[op[3]] = m
-                keys[key_of(m)] = op[3]
-                hkeys[bytes(m.header)] = op[3]
+        for op in all_updates(case):
+            m = mk_msg(op[2], op[3])
+            msgs[op[3]] = m
+            keys[key_of(m)] = op[3]
+            hkeys[bytes(m.header)] = op[3]
 
         def r_main():
             ctl.tid_of[_real_threading.get_ident()] = "R"
@@ -494,12 +628,7 @@ def run_sched_case(case: Dict[str, Any]) -> Dict[str, Any]:
         rt.start()
         ctl.wait_arrival()
         sched = list(case["sched"]) + ["R", "W"] * (tail_len(case) // 2)
-        for t in sched:
-            if ctl.at.get("R") == "finished":
-                break
-            lab = ctl.step(t)
-            if lab is not None:
-                obs["trace"].append(f"{t}:{lab}")
+        ctl.run(sched, lambda: ctl.at.get("R") == "finished", obs["trace"])
         obs["warn"] = wc.n
         obs["wdead"] = 1 if ctl.at.get("W") == "finished" else 0
         if "W" in ctl.exc:
@@ -508,7 +637,7 @@ def run_sched_case(case: Dict[str, Any]) -> Dict[str, Any]:
         for i, d in enumerate(case["ds"]):
             ddir = os.path.join(base, "run", f"ds{i}")
             names = sorted(os.listdir(ddir)) if os.path.isdir(ddir) else []
-            ext = dsets[i].formatter_cls.ext
+            ext = E["get_formatter"](d["fmt"]).ext
             ordered = [n for n in names if n == "f" + ext] + sorted(n for n in names if n != "f" + ext)
             flist = []
             blist = []
@@ -531,7 +660,7 @@ def run_sched_case(case: Dict[str, Any]) -> Dict[str, Any]:
             obs.setdefault("fbytes", []).append(blist)
     finally:
         # tear down: unwind R if it is still inside stop(), let the writer run out
-        ctl.abort = ctl.at.get("R") != "finished"
+        ctl.abort = "R" in ctl.at and ctl.at["R"] != "finished"      # R was started and is parked inside an operation
         if ctl.abort:
             ctl.go["R"].release()
             ctl.wait_arrival()
@@ -539,10 +668,11 @@ def run_sched_case(case: Dict[str, Any]) -> Dict[str, Any]:
         ctl.free = True
         if dc is not None:
             _PV.set_flag_read_by(dc, "write", True, "_close")      # the writer loop's stop flag, whatever it is called
-            if ctl.at.get("W") != "finished":
+            if ctl.started and ctl.at.get("W") != "finished":
                 ctl.go["W"].release()
             try:
-                dc.write_thread.join(10)
+                if getattr(dc, "write_thread", None) is not None and ctl.started:
+                    dc.write_thread.join(10)
                 for ds in dc.datasets:
                     try:
                         ds.close()
@@ -616,10 +746,8 @@ def sched_block(cid: str, case: Dict[str, Any], obs: Dict[str, Any]) -> List[str
     lines = [f"CASE {cid} S {int(wp) if float(wp).is_integer() else wp} {tail_len(case)}"]
     for d in case["ds"]:
         lines.append(f"DS {sel_tok(d['types'])} {eff_interval(d['interval'])} {FMT_TOK[d['fmt']]}")
-    toks = []
-    for op in case["ops"]:
-        toks.append(f"u:{op[1]}:{op[2]}:{op[3]}" if op[0] == "u" else f"{op[0]}:{op[1]}")
-    lines.append("OPS " + " ".join(toks))
+    lines.append("OPS " + ops_toks(case["ops"]))
+    lines += pre_lines(case)
     lines.append("SCHED " + (case["sched"] or "-"))
     lines.append(f"OBS {obs['status']} warn={obs['warn']} wdead={obs['wdead']}")
     lines.append("TR " + " ".join(obs["trace"]))
@@ -711,54 +839,120 @@ def fmt_block(cid: str, o: Dict[str, Any]) -> List[str]:
 # several recordings with one DataCollection object (START / STOP / START …, as the data logger does)
 # ------------------------------------------------------------------------------------------------
 
+class _DaemonThreading:
+    """the real `threading` module, except that threads are daemons: a writer thread that a changed `stop()` /
+    `close()` no longer ends must not keep the checking process alive"""
+
+    def __getattr__(self, name):
+        return getattr(_real_threading, name)
+
+    @staticmethod
+    def Thread(*a, **k):
+        k.setdefault("daemon", True)
+        return _real_threading.Thread(*a, **k)
+
+
+MULTI_SESSION_LIMIT_S = 60.0
+
+
 def multi_session_check(fmt: str = "raw", flush_every_update: bool = False, sessions=(5, 6, 4)) -> Dict[str, Any]:
     """Real DataCollection, real writer thread, real clock; one data set selecting every type; three recordings in a row
-    with the same objects (only the file name changes, as the metadata would).  Returns the per-session sequences of
-    message serials that were sent and that the files contain."""
+    with the same objects (only the file name changes, as the metadata would).  Between the recordings (before the
+    first, after each stop) the collection is handed messages, time-outs and pause / resume as the data logger does
+    with everything it reads; the first recording is stopped while paused; in the second one message arrives while
+    paused.  Returns the per-session sequences of message serials that had to be recorded ("sent") and that the
+    files contain.  The run is given MULTI_SESSION_LIMIT_S seconds (it
+    needs about one): a `stop()` that waits for ever is an observation ("exc"), not a hanging check."""
     E = env()
     dcm = E["dcm"]
     base = tempfile.mkdtemp(prefix="pyrtma_verif_dlmulti_")
     old_period = dcm.DataCollection.WRITE_PERIOD
+    from .rebind import rebind, snapshot, reinstate   # stand-ins under any import style of data_collection.py
+    old_thr = snapshot(dcm, ("threading",))
     out: Dict[str, Any] = {"fmt": fmt, "flush_every_update": flush_every_update, "sessions": [], "exc": None}
-    dc = None
+    box: Dict[str, Any] = {"dc": None}
+
+    def body():
+        try:
+            md = E["LoggingMetadata"]()
+            dc = box["dc"] = dcm.DataCollection("c", base, "run", md)
+            ds = E["DataSet"]("c", "ds0", "ds0", "f0", E["get_formatter"](fmt), 0, [2147483647], md)
+            dc.add_data_set(ds)
+            serial = 0
+            outside = 9000
+
+            def not_recording():
+                """what the data logger hands over between two recordings: every message it reads, and time-outs"""
+                nonlocal outside
+                for t in (0, 1):
+                    outside += 1
+                    dc.update(mk_msg(t, outside))
+                dc.update(None)
+
+            not_recording()                      # before the first start()
+            for si, n in enumerate(sessions):
+                ds.file_name_fmt = f"rec{si}"
+                dc.start()
+                sent, keys = [], {}
+                for k in range(n):
+                    serial += 1
+                    m = mk_msg(k % 3, serial)
+                    keys[key_of(m)] = serial
+                    if si == 1 and k == 2:       # second recording: one message arrives while paused
+                        dc.pause()
+                        dc.update(m)
+                        dc.resume()
+                    else:
+                        sent.append(serial)
+                        dc.update(m)
+                    if flush_every_update:
+                        _real_time.sleep(0.02)
+                if si == 0:                      # first recording: stopped while paused; the next one is not paused
+                    dc.pause()
+                dc.stop()
+                got: List[Any] = []
+                # the data set's file(s) of this recording
+                paths = sorted(str(p) for p in Path(base).rglob(f"rec{si}*"))
+                for pth in paths:
+                    for kk in decode_file(fmt, pth):
+                        got.append(keys.get(kk, ("foreign", kk[0][:8].hex() if kk[0] else None)))
+                out["sessions"].append({"sent": sent, "read": got, "files": [os.path.basename(p) for p in paths]})
+                not_recording()                  # after stop(): dropped, and harmless for the next recording
+                if si == 1:
+                    dc.pause()                   # pause / resume of a stopped collection
+                    not_recording()
+                    dc.resume()
+        except Exception as e:  # noqa: BLE001
+            out["exc"] = f"{type(e).__name__}: {e}"[:300]
+
     try:
+        rebind(dcm, {"threading": _DaemonThreading()})
         if flush_every_update:
             dcm.DataCollection.WRITE_PERIOD = 0.0
-        md = E["LoggingMetadata"]()
-        dc = dcm.DataCollection("c", base, "run", md)
-        ds = E["DataSet"]("c", "ds0", "ds0", "f0", E["get_formatter"](fmt), 0, [2147483647], md)
-        dc.add_data_set(ds)
-        serial = 0
-        for si, n in enumerate(sessions):
-            ds.file_name_fmt = f"rec{si}"
-            dc.start()
-            sent, keys = [], {}
-            for k in range(n):
-                serial += 1
-                m = mk_msg(k % 3, serial)
-                keys[key_of(m)] = serial
-                sent.append(serial)
-                dc.update(m)
-                if flush_every_update:
-                    _real_time.sleep(0.02)
-            dc.stop()
-            got: List[Any] = []
-            for fn in sorted(os.listdir(os.path.join(base, "run")) if os.path.isdir(os.path.join(base, "run")) else []):
-                pass
-            # the data set's file(s) of this recording
-            paths = sorted(str(p) for p in Path(base).rglob(f"rec{si}*"))
-            for pth in paths:
-                for kk in decode_file(fmt, pth):
-                    got.append(keys.get(kk, ("foreign", kk[0][:8].hex() if kk[0] else None)))
-            out["sessions"].append({"sent": sent, "read": got, "files": [os.path.basename(p) for p in paths]})
-    except Exception as e:  # noqa: BLE001
-        out["exc"] = f"{type(e).__name__}: {e}"[:300]
+        t = _real_threading.Thread(target=body, daemon=True)
+        t.start()
+        t.join(MULTI_SESSION_LIMIT_S)
+        hung = t.is_alive()
+        if hung:
+            out = dict(out, sessions=list(out["sessions"]),
+                       exc=f"recording {len(out['sessions'])} did not end within {MULTI_SESSION_LIMIT_S:.0f} s "
+                           "(start / update / stop hangs)")
     finally:
         dcm.DataCollection.WRITE_PERIOD = old_period
-        try:
-            if dc is not None:
-                dc.close()
-        except Exception:  # noqa: BLE001
-            pass
+        dc = box["dc"]
+        if dc is not None:
+            _PV.set_flag_read_by(dc, "write", True, "_close")      # the writer loop's stop flag, whatever it is called
+            closer = _real_threading.Thread(target=_quiet, args=(dc.close,), daemon=True)
+            closer.start()
+            closer.join(5)
+            _PV.set_flag_read_by(dc, "__del__", True, "_dead")     # keeps __del__ from closing again
+        reinstate(dcm, old_thr)
         shutil.rmtree(base, ignore_errors=True)
     return out
+
+
+def _quiet(fn) -> None:
+    try:
+        fn()
+    except Exception:  # noqa: BLE001
+        pass
